@@ -313,7 +313,7 @@ fn sweep_cell<const N: usize>(acc: &mut Acc, l: Label, other: Label, len: usize,
         g.bind(2, 3, l);
         g.put(3, &hx(&d2));
         let _ = g.data(3); // collects 2 and 3
-        let gone = g.keys() == vec![0, 1, 4, 5];
+        let gone = crate::real::keys_sorted(&g) == vec![0, 1, 4, 5];
         gone && g.kid(0, l) == Some(1) && g.data(5).map(|h| h.to_vec()) == Some(d2.clone()) && g.data(1).map(|h| h.to_vec()) == Some(d.clone())
     }));
     check("data of a grouped vertex, heap and inline", guarded(|| {
